@@ -339,6 +339,16 @@ Section Exec.
           | _, _, _ => None
           end
         else None
+    | [VZ pk; VL es; VL eps; VL cs; VL idx; VB label] =>
+        (* selected per-index challenges u_i (the implementation returns all n; the model evaluates only the asked ones) *)
+        if opis op "shuffle_us_at" then
+          match g_cts es, g_cts eps, gZs cs, gZs idx with
+          | Some es', Some eps', Some cs', Some idx' =>
+              let ph := sha512 (us_prefix B es' eps' cs' label) in
+              Some (v_Zs (map (fun i => b_hash_to_exp B (u_input ph i)) idx'))
+          | _, _, _, _ => None
+          end
+        else None
     | [VZ pk; VL es; VL eps; VB pfb; VB label] =>
         if opis op "shuffle_challenge" then
           match g_cts es, g_cts eps with
